@@ -6,7 +6,7 @@ CONSTANTS MaxMembers, MaxLen
 
 Prim(t) == [k |-> "prim", t |-> t]
 P8 == [k |-> "struct", ms |-> <<Prim("u8"), Prim("i32")>>]           \* struct P8 { a: u8, x: i32 }
-W2 == [k |-> "word", bytes |-> 2]                                     \* word16 W2 { a: u8, b: u8 }
+W2 == [k |-> "word", bytes |-> 2, malign |-> 1]                                     \* word16 W2 { a: u8, b: u8 }
 Alphabet == { Prim("i8"), Prim("i16"), Prim("i32"), Prim("i64"), Prim("i128"), Prim("u8"), Prim("bool"), Prim("usize"),
               [k |-> "ptr"], [k |-> "array", n |-> 2, e |-> Prim("i16")], [k |-> "array", n |-> 3, e |-> Prim("u8")],
               [k |-> "array", n |-> 0, e |-> Prim("i64")], P8, W2 }
@@ -36,7 +36,8 @@ RuleSane == done = "struct" =>
               /\ \A i \in 1..Len(ms) : SizeOf(S) >= SizeOf(ms[i])
 EmitCase ==
     /\ done = "struct" => PrintT(<<"CASE", ToJson([kind |-> "struct", ms |-> [i \in 1..Len(ms) |-> Name(ms[i])],
-                                                   size |-> SizeOf(S), align |-> AlignOf(S)])>>)
+                                                   size |-> SizeOf(S), align |-> AlignOf(S),
+                                                   size2 |-> SizeOfM(S, "members")])>>)
     /\ done = "len" => PrintT(<<"CASE", ToJson([kind |-> "len", n |-> len, mode |-> mode, elem |-> elem,
                                                 expect |-> LenOf(len, mode),
                                                 size |-> SizeOf([k |-> "array", n |-> len, e |-> Prim(elem)])])>>)
